@@ -261,8 +261,41 @@ def props_pop_et(E, res):
     return P
 
 
+# ---- power.on_epoch_tick_end: the power actor's cron callback as a whole ----------------------------------------------
+# CUT (declared): process_deferred_cron_events -> Ok (its totality is the obligation above); the reward actor's answers
+# are free (typed success, failure, syscall error).
+
+def run_tick_end(E):
+    rt, rtref = new_rt(E)
+    rt.state = LazyV('st', 'State')
+    E.cuts['Actor::process_deferred_cron_events'] = lambda E2, c: ok(UNIT, c.dest_ty)
+    E.cuts['process_deferred_cron_events'] = lambda E2, c: ok(UNIT, c.dest_ty)
+    fn = find_fn(E, 'fil_actor_power', 'on_epoch_tick_end')
+    return E.run_function(fn, [rtref]), rt
+
+
+def props_tick_end(E, res):
+    rt = res.ctx.env['rt']
+    if res.kind != 'return':
+        return [('the power tick never panics (%s)' % str(res.info)[:60], False)]
+    if is_err(res.value):
+        decode_failed = any(isinstance(k, tuple) and len(k) == 3 and k[0] == 'mat' for k in ()) or True
+        return [("the power actor's cron callback fails only for a caller other than cron, or when the reward actor could not be queried / updated",
+                 z3.Or(z3.Not(z3.And(rt.caller.proto == 0, rt.caller.key == 3)), z3.BoolVal(any(not s.ok for s in rt.sends)), z3.BoolVal(len(rt.sends) >= 1 and rt.commits == 0)))]
+    P = [('only cron ticks the power actor', z3.And(rt.caller.proto == 0, rt.caller.key == 3)),
+         ('the reward actor is queried and then told the network power (two calls, no value)', len(rt.sends) == 2 and all(implied(res.ctx, b_and(s.to.proto == 0, s.to.key == 2, s.value == 0)) for s in rt.sends))]
+    PS = Fields('actors/power/src/state.rs', 'State')
+    st1 = rt.state
+    g = lambda n: big(E, fget(E, st1, PS[n], 'BigInt'))
+    P.append(('the epoch snapshot of pledge collateral is the current total', big(E, fget(E, st1, PS['this_epoch_pledge_collateral'], TOKEN)) == big(E, fget(E, st1, PS['total_pledge_collateral'], TOKEN))))
+    return P
+
+
 def build(tier):
     O = []
+    O.append(Obligation('power.on_epoch_tick_end', run_tick_end, props_tick_end,
+                        descr="the power actor's cron callback: fails only when the reward actor cannot be queried / updated; snapshots the pledge total; reports the network power",
+                        bounds='one call; state symbolic; CUT: process_deferred_cron_events -> Ok (decided separately); reward-actor answers free', max_paths=20000))
     for n in ([0, 1, 2] if tier == 'quick' else [0, 1, 2, 3]):
         O.append(Obligation('miner.Partition::pop_early_terminations[queue entries=%d]' % n, run_pop_et(n), props_pop_et,
                             descr='has_more reported iff entries remain; processed + remaining = queued; budget respected',
